@@ -131,6 +131,30 @@ def explore(ctx):
                            G.lst([G.tup(G.s(k), G.lst([G.z(x) for x in v], "Z")) for k, v in obs_carets.items()], "(str * list Z)"),
                            G.lst([G.tup(G.tup(G.tup(G.b(r), G.s(g)), oz(en)), oz(ex)) for r, g, en, ex in obs_curs], "curs_rec")))
         meta.append(dict(case, observed={"classes": obs_classes, "carets": obs_carets, "cursive": jsonable(obs_curs), "ltr_glyphs": ltr}))
+    # ---- the same writer OBJECTS used for several fonts in a row (featureWriters=[instances], as compileInterpolatableTTFs
+    # does for its masters): every font must still get its own data
+    from ufo2ft.featureWriters import KernFeatureWriter, MarkFeatureWriter, GdefFeatureWriter, CursFeatureWriter
+    rng2 = ctx.subrng("shared-writers")
+    for i in range(ctx.budget(8, 60)):
+        lib = ["ufoLib2", "defcon"][i % 2]
+        descs = [gen(rng2) for _ in range(rng2.choice([2, 3]))]
+        case = {"fonts": [jsonable(d) for d in descs], "lib": lib, "level": "shared feature-writer instances"}
+        ctx.count(); ctx.klass("shared writer instances x %d fonts" % len(descs)); ctx.nontriv(("shared", i, ctx.scale))
+        try:
+            def layout_bytes(tt):
+                b = io.BytesIO(); tt.save(b); t2 = TTFont(io.BytesIO(b.getvalue()))
+                return {t: t2.reader[t] for t in ("GDEF", "GPOS") if t in t2.reader}
+            ref = [layout_bytes(ufo2ft.compileTTF(build_font(d, lib), useProductionNames=False)) for d in descs]
+            writers = [KernFeatureWriter(), MarkFeatureWriter(), GdefFeatureWriter(), CursFeatureWriter()]
+            got = [layout_bytes(ufo2ft.compileTTF(build_font(d, lib), useProductionNames=False, featureWriters=writers)) for d in descs]
+        except Exception as e:
+            ctx.spec_failure(case, "compile raised %s: %s\n%s" % (type(e).__name__, e, traceback.format_exc()[-1000:]))
+            continue
+        for k, (r, g) in enumerate(zip(ref, got)):
+            if r != g:
+                ctx.spec_failure(dict(case, font_index=k), "font #%d compiled with writer objects that had already been used for another font: "
+                                 "its %s differ(s) from a compile with fresh writers" % (k, "/".join(t for t in ("GDEF", "GPOS") if r.get(t) != g.get(t))))
+                break
     vals = ctx.coq_eval(IMPORTS, FN, cases, chunk=40, tag="Gdef")
     for v, case in zip(vals, meta):
         if v is None or v == 0:
